@@ -101,9 +101,9 @@ PROPS = {
    rule="case = one real cppcms::service (reactor epoll|poll|select, 1..3 workers, buffer sizes 1..64K) serving 1..5 simulated connections x 1..4 well-formed requests each over http / scgi / fastcgi (sync or async mount, keep-alive / KEEP_CONN sequences), "
         "each request with its own client-side segmentation (whole, few cuts, byte dribble), FastCGI PARAMS/STDIN record sizes and padding, channel capacities and read pace; the transport additionally splits reads/writes, injects EINTR and spurious readiness. "
         "Oracle: the echo application's observation (every CGI variable, GET/POST fields, cookies, raw body) must equal an independent model of the request for that protocol; status 200, handler entered exactly once, response framing valid. "
-        "Added in round 2: header values/names, query strings and path segments around and above the environment pool's page size (1018..6000 bytes, shared 7000-byte budget so that the head stays under the front-ends' 16 KiB), folded header values (obs-fold, one value in five), slow peers (pauses between segments each below 0.45 x http.timeout, together above it), HTTP/1.0 requests must not be answered with the chunked coding. non-trivial = run in which a request had >= 2 segments or a body; distinct = distinct simulation trace hash",
+        "Added in round 2: header values/names, query strings and path segments around and above the environment pool's page size (1018..6000 bytes, shared 7000-byte budget so that the head stays under the front-ends' 16 KiB), folded header values (obs-fold, one value in five), slow peers (pauses between segments each below 0.45 x http.timeout, together above it), HTTP/1.0 requests must not be answered with the chunked coding; HTTP/1.1 pipelining (a third of the connections send the next plain request right behind the previous one, before reading its response). non-trivial = run in which a request had >= 2 segments or a body; distinct = distinct simulation trace hash",
    fault_keys=["short_reads", "short_writes", "eagain", "eintr", "spurious_wakeups"],
-   probe_keys=["multi_segment_requests", "requests_with_body", "keepalive_followups", "slow_peer_pauses", "chunked_responses", "reactor_epoll", "reactor_poll", "reactor_select"],
+   probe_keys=["multi_segment_requests", "requests_with_body", "keepalive_followups", "pipelined_requests", "slow_peer_pauses", "chunked_responses", "reactor_epoll", "reactor_poll", "reactor_select"],
    components=E1C,
    assumptions=["generated requests stay inside the sub-language where RFC 3875/7230 and the cppcms documentation leave no choice (no '+' or invalid %-escapes in paths, token header names, no duplicate headers)",
                 "the simulated kernel follows Linux semantics for the calls cppcms makes (level-triggered readiness, short I/O, EAGAIN/EINTR) but is a model", "sampling of requests, segmentations and schedules"],
